@@ -74,8 +74,10 @@ where
     }
 
     fn call(&mut self, req: Req) -> Self::Future {
-        // Clone the service for the spawned task
-        let mut service = self.inner.clone();
+        // Move the instance that `poll_ready` was called on into the spawned task (a fresh
+        // clone has not been polled and may not be ready) and leave a clone in its place.
+        let clone = self.inner.clone();
+        let mut service = std::mem::replace(&mut self.inner, clone);
         let (tx, rx) = oneshot::channel();
 
         // Spawn the request processing on the executor
